@@ -652,11 +652,13 @@ func digestsCmd(args []string) int {
 	tier := fs.String("tier", "quick", "")
 	n := fs.Int("n", 64, "")
 	seed := fs.Uint64("seed", 1, "")
+	traceIdx := fs.Int("trace", -1, "print the trace of this run index")
 	fs.Parse(args)
 	p := props.Registry[*propID]
 	if p == nil {
 		return 2
 	}
+	props.SetTier(*tier)
 	var directed [][]uint64
 	if p.Directed != nil {
 		directed = p.Directed(*tier)
@@ -668,7 +670,12 @@ func digestsCmd(args []string) int {
 			forced = directed[(j/2*7919)%len(directed)]
 		}
 		rs := runSeed(*seed, p.ID, j)
-		r := execRun(p, core.NewGenTape(rs, forced), false)
+		r := execRun(p, core.NewGenTape(rs, forced), j == *traceIdx)
+		if j == *traceIdx {
+			for _, l := range r.Trace() {
+				fmt.Println("   ", l)
+			}
+		}
 		v := "-"
 		if r.Viol != nil {
 			v = r.Viol.Signature
